@@ -91,7 +91,13 @@ func runEmulator(events []eev) []string {
 	port := newEmuPort()
 	e := xsensemulator.NewEmulator(port)
 	done := make(chan error, 1)
-	go func() { done <- e.Receive(context.Background()) }()
+	go func() {
+		var err error
+		if p, msg := protect(func() { err = e.Receive(context.Background()) }); p {
+			err = fmt.Errorf("the receive loop panicked: %s", msg) // ends the loop, not the harness
+		}
+		done <- err
+	}()
 	alive := true
 	wait := func() {
 		if !alive {
@@ -218,7 +224,13 @@ func emuMarshalAfter(cfgs []xsens.OutputConfiguration, md xsens.MeasurementData,
 	port := newEmuPort()
 	e := xsensemulator.NewEmulator(port)
 	done := make(chan error, 1)
-	go func() { done <- e.Receive(context.Background()) }()
+	go func() {
+		var err error
+		if p, msg := protect(func() { err = e.Receive(context.Background()) }); p {
+			err = fmt.Errorf("the receive loop panicked: %s", msg) // ends the loop, not the harness
+		}
+		done <- err
+	}()
 	alive := true
 	wait := func() {
 		select {
